@@ -134,7 +134,26 @@ package common
 
 // PrevHas(prev, s): some node of the current custodian record has custodian address (text) s.
 //@ spec PrevHas(prev *CustodianUpdateRequest, s string) bool = exists m int :: 0 <= m && m < len(prev.Nodes) && prev.Nodes[m].Custodian.String() == s
+// An entry is NEW when its custodian address is not among the current custodian nodes, CHANGED when it is but with another payee.
+//@ spec IsNew(prev *CustodianUpdateRequest, n *CustodianNode) bool = !PrevHas(prev, n.Custodian.String())
+//@ spec IsChanged(prev *CustodianUpdateRequest, n *CustodianNode) bool = exists m int :: 0 <= m && m < len(prev.Nodes) &&
+//@     prev.Nodes[m].Custodian.String() == n.Custodian.String() && prev.Nodes[m].Payee.String() != n.Payee.String()
+// Price(prev, curs, n): the price of the first n entries: 100 XIN per new entry, 1 XIN per changed entry (amounts in 10^-8 XIN).
+//@ rec Price(prev *CustodianUpdateRequest, curs *CustodianUpdateRequest, n int) mathint = n <= 0 ? 0 :
+//@     Price(prev, curs, n - 1) + (IsNew(prev, curs.Nodes[n - 1]) ? 10000000000 : (IsChanged(prev, curs.Nodes[n - 1]) ? 100000000 : 0))
 
+// Describes(curs, extra): curs is a parse of extra: n = (len(extra) - 128) / 353 entries, entry k is the 353 bytes at 64 + 353 k,
+// and the keys of node k are the bytes of its own entry at the documented offsets.
+//@ spec Describes(curs *CustodianUpdateRequest, extra []byte) bool = curs != nil && len(curs.Nodes) * 353 == len(extra) - 128 &&
+//@     (forall k int :: {curs.Nodes[k]} 0 <= k && k < len(curs.Nodes) ==> NodeShape(curs.Nodes[k]) && NodeKeysParsed(curs.Nodes[k])) &&
+//@     (forall k, j int :: {curs.Nodes[k].Extra[j]} 0 <= k && k < len(curs.Nodes) && 0 <= j && j < 353 ==> extra[64 + 353 * k + j] == curs.Nodes[k].Extra[j])
+
+// FilterOK: every key of the filter map is the custodian address of a current node and maps to that node's payee address.
+//@ spec FilterOK(filter map[string]string, prev *CustodianUpdateRequest) bool = forall s string :: {has(filter, s)} has(filter, s) ==>
+//@     (exists m int :: {prev.Nodes[m]} 0 <= m && m < len(prev.Nodes) && prev.Nodes[m].Custodian.String() == s && filter[s] == prev.Nodes[m].Payee.String())
+
+// The literal numbers in the top-level clauses are the rule (353-byte entries, at least 7 of them, 100 / 1 XIN): they are NOT
+// taken from the constants of the code, so that a changed constant is a violation.
 //@ func (tx *Transaction) validateCustodianUpdateNodes
 //@   property C34, C05
 //@   requires tx != nil && store != nil && OutputsOK(tx)
@@ -142,23 +161,21 @@ package common
 //@   modifies nothing
 //@   ensures [shape] err == nil ==> tx.Version >= TxVersionHashSignature && tx.Asset == XINAssetId && len(tx.Outputs) == 1 &&
 //@       tx.Outputs[0].Type == OutputTypeCustodianUpdateNodes && len(tx.Outputs[0].Keys) == 1
-//@   ensures [canonical] err == nil ==> len(tx.Extra) >= 64 + custodianNodeExtraSize * custodianNodesMinimumCount + 64 &&
-//@       (len(tx.Extra) - 128) % custodianNodeExtraSize == 0
+//@   ensures [canonical] err == nil ==> len(tx.Extra) >= 64 + 353 * 7 + 64 && (len(tx.Extra) - 128) % 353 == 0
 //@   ensures [approval] err == nil ==> CurrentCustodian(store, now) != nil && ApprovalOK(CurrentCustodian(store, now).Custodian, tx.Extra)
-//@   ensures [price-new] err == nil ==> exists curs *CustodianUpdateRequest :: curs != nil &&
-//@       len(curs.Nodes) * custodianNodeExtraSize == len(tx.Extra) - 128 &&
-//@       (forall i int :: 0 <= i && i < len(tx.Extra) - 128 ==> tx.Extra[64:len(tx.Extra)-64][i] == curs.Nodes[i / custodianNodeExtraSize].Extra[i % custodianNodeExtraSize]) &&
-//@       (forall k int :: 0 <= k && k < len(curs.Nodes) ==> NodeKeysParsed(curs.Nodes[k])) &&
-//@       (forall k int :: 0 <= k && k < len(curs.Nodes) && !PrevHas(CurrentCustodian(store, now), curs.Nodes[k].Custodian.String()) ==>
-//@           val(tx.Outputs[0].Amount) >= custodianNodeNewPrice * 100000000)
+//@   ensures [price] err == nil ==> exists curs *CustodianUpdateRequest :: {curs.Nodes} Describes(curs, tx.Extra) &&
+//@       val(tx.Outputs[0].Amount) >= Price(CurrentCustodian(store, now), curs, len(curs.Nodes))
+//@   hint return [price-local] err == nil ==> Describes(curs, tx.Extra) && val(out.Amount) >= Price(prev, curs, len(curs.Nodes))
+//@   -- the final "custodian account and nodes mismatch" rejection happens only for a real mismatch: the node count differs, or a current
+//@   -- custodian node is missing from the update (needs: the second loop deletes what it has seen)
+//@   hint at "return fmt.Errorf("custodian account and nodes mismatch %x", tx.Extra)" [mismatch-reason] len(prev.Nodes) != len(curs.Nodes) ||
+//@       (exists m int :: {prev.Nodes[m]} 0 <= m && m < len(prev.Nodes) && (forall k int :: {curs.Nodes[k]} 0 <= k && k < len(curs.Nodes) ==> curs.Nodes[k].Custodian.String() != prev.Nodes[m].Custodian.String()))
 //@   loop 0 invariant len(filter) == rangeindex + 1
 //@   loop 0 invariant forall j int :: rangeindex < j && j < len(prev.Nodes) ==> !has(filter, prev.Nodes[j].Custodian.String())
-//@   loop 0 invariant forall k int :: 0 <= k && k < len(prev.Nodes) ==> prev.Nodes[k] != nil
-//@   loop 0 invariant forall s string :: has(filter, s) ==> PrevHas(prev, s)
-//@   loop 1 invariant val(total) >= 0
-//@   loop 1 invariant forall s string :: has(filter, s) ==> PrevHas(prev, s)
-//@   loop 1 invariant forall k int :: 0 <= k && k <= rangeindex && !PrevHas(prev, curs.Nodes[k].Custodian.String()) ==> val(total) >= val(newPrice)
-//@   loop 1 invariant val(newPrice) == custodianNodeNewPrice * 100000000
+//@   loop 0 invariant [filter] FilterOK(filter, prev)
+//@   loop 1 invariant [total] val(total) >= 0 && val(total) >= Price(prev, curs, rangeindex + 1)
+//@   loop 1 invariant [filter] FilterOK(filter, prev)
+//@   loop 1 invariant [deleted] forall s string, k int :: {has(filter, s), curs.Nodes[k]} has(filter, s) && 0 <= k && k <= rangeindex ==> curs.Nodes[k].Custodian.String() != s
 
 // ───────────── EncodeCustodianNode: the encoder writes the layout the parser reads ─────────────
 //@ -- (a Address) Hash: contract in zz_contracts_c30_verif.go
